@@ -51,10 +51,10 @@ POLICIES = ["random", "sticky", "pct", "rr"]
 def gen_case(streams, tier, avoid):
     cfg = streams.get("config")
     rng = streams.get("program")
-    prog = workloads.gen_program(rng, nfun=cfg.randint(2, 4), big=cfg.random() < 0.4)
+    prog = workloads.gen_program(rng, nfun=cfg.randint(2, 4 if tier == "quick" else 6), big=cfg.random() < 0.4)
     names = sorted(prog["funcs"])
     fam = cfg.choice(["cold", "cold", "keep_vs_load", "changed_vs_reader", "mixed", "reader_pipeline"])
-    nprocs = cfg.choice([2, 2, 2, 3])
+    nprocs = cfg.choice([2, 2, 2, 3] if tier == "quick" else [2, 2, 3, 3, 4])
     setup = 0
     edit = None
     procs = []
